@@ -3,6 +3,37 @@ From Coq Require Import ZArith List Bool Arith Lia ZifyBool.
 Require Import Reduce ReduceExec C14_Model.
 Import ListNotations.
 
+(* ================================================================= 0. insertion sort under a comparison-preserving map *)
+Section SortMap.
+Variables X Y : Type.
+Variable g : X -> Y.
+Variable lx : X -> X -> bool.
+Variable ly : Y -> Y -> bool.
+Variable Q : X -> Prop.
+Hypothesis Hg : forall a b, Q a -> Q b -> ly (g a) (g b) = lx a b.
+Lemma insert_map x l : Q x -> Forall Q l -> insert ly (g x) (map g l) = map g (insert lx x l).
+Proof.
+  intros Hx HF. induction l as [|y t IH]; [reflexivity|]. inversion HF; subst. cbn [map insert].
+  rewrite Hg by assumption. destruct (lx y x); cbn [map]; [rewrite IH by assumption|]; reflexivity.
+Qed.
+Lemma insert_Q x l : Q x -> Forall Q l -> Forall Q (insert lx x l).
+Proof.
+  intros Hx HF. induction l as [|y t IH]; cbn [insert]; [constructor; auto|]. inversion HF; subst.
+  destruct (lx y x); constructor; auto.
+Qed.
+Lemma isort_Q l : Forall Q l -> Forall Q (isort lx l).
+Proof. induction l as [|y t IH]; intros HF; cbn [isort]; [constructor|]. inversion HF; subst. apply insert_Q; auto. Qed.
+Lemma isort_map l : Forall Q l -> isort ly (map g l) = map g (isort lx l).
+Proof.
+  induction l as [|y t IH]; intros HF; [reflexivity|]. inversion HF; subst. cbn [map isort].
+  rewrite IH by assumption. apply insert_map; [assumption|apply isort_Q; assumption].
+Qed.
+End SortMap.
+Lemma insert_ext {X} (f g : X -> X -> bool) : (forall a b, f a b = g a b) -> forall x l, insert f x l = insert g x l.
+Proof. intros H x l. induction l as [|y t IH]; [reflexivity|]. cbn [insert]. rewrite H, IH. reflexivity. Qed.
+Lemma isort_ext {X} (f g : X -> X -> bool) : (forall a b, f a b = g a b) -> forall l, isort f l = isort g l.
+Proof. intros H l. induction l as [|y t IH]; [reflexivity|]. cbn [isort]. rewrite IH. apply insert_ext. exact H. Qed.
+
 (* ================================================================= A. the machine only compares *)
 Section Invariance.
 Variables A B : Type.
@@ -160,6 +191,60 @@ Proof.
        end.
 Qed.
 
+Definition PP (p : A * A) : Prop := P (fst p) /\ P (snd p).
+
+Lemma step_out s : good s -> Forall PP (outp s) ->
+  match step A ltA s with
+  | Next s' => Forall PP (outp s')
+  | Done ps m => Forall PP ps /\ P m
+  | Err => True
+  end.
+Proof.
+  destruct s as [l d v r o]. intros (Hd & Hv & Hr) Ho. cbn [data cur rest outp] in *.
+  unfold step, goto. cbn [lab data cur rest outp].
+  destruct l.
+  all: try (destruct r as [|x r']; [exact Ho|]).
+  all: repeat match goal with
+       | Hd : Forall P ?dd |- context [bk1 A ?dd] => let E := fresh "E" in let x := fresh "b1" in
+           destruct (bk1 A dd) as [x|] eqn:E; [pose proof (bk1_P dd x Hd E)|try exact I]
+       | Hd : Forall P ?dd |- context [bk2 A ?dd] => let E := fresh "E" in let x := fresh "b2" in
+           destruct (bk2 A dd) as [x|] eqn:E; [pose proof (bk2_P dd x Hd E)|try exact I]
+       | Hd : Forall P ?dd |- context [bk3 A ?dd] => let E := fresh "E" in let x := fresh "b3" in
+           destruct (bk3 A dd) as [x|] eqn:E; [pose proof (bk3_P dd x Hd E)|try exact I]
+       | Hd : Forall P ?dd |- context [fr0 A ?dd] => let E := fresh "E" in let x := fresh "d0" in
+           destruct (fr0 A dd) as [x|] eqn:E; [pose proof (fr0_P dd x Hd E)|try exact I]
+       | Hd : Forall P ?dd |- context [fr1 A ?dd] => let E := fresh "E" in let x := fresh "d1" in
+           destruct (fr1 A dd) as [x|] eqn:E; [pose proof (fr1_P dd x Hd E)|try exact I]
+       end.
+  all: try (match goal with |- context [match erase A ?k ?dd with _ => _ end] => destruct (erase A k dd) end).
+  all: ifs.
+  all: try (match goal with |- context [match length ?dd with _ => _ end] => destruct (length dd) as [|[|[|n]]] end).
+  all: try (match goal with |- context [match ?dd with [] => _ | _ => _ end] => is_var dd; destruct dd end).
+  all: cbn [outp]; try exact I; try exact Ho.
+  all: try (constructor; [split; assumption|exact Ho]).
+  all: try (split; [apply Forall_rev; exact Ho|assumption]).
+Qed.
+
+Lemma run_out fuel s ps m : good s -> Forall PP (outp s) -> run A ltA fuel s = Done ps m -> Forall PP ps /\ P m.
+Proof.
+  revert s. induction fuel as [|n IH]; intros s Hg Ho Hr; [discriminate|].
+  cbn [run] in Hr. pose proof (step_out s Hg Ho) as H1.
+  destruct (step A ltA s) as [s'|ps2 m2|] eqn:E; try discriminate.
+  - eapply IH; [eapply step_good; eassumption|exact H1|exact Hr].
+  - inversion Hr; subst. exact H1.
+Qed.
+
+Lemma line_out l ps m : Forall P l -> line A ltA l = Some (ps, m) ->
+  Forall PP ps /\ match m with Some x => P x | None => True end.
+Proof.
+  intros HF. destruct l as [|x r]; cbn [line].
+  - intros H; inversion H; subst. split; [constructor|exact I].
+  - destruct (run A ltA (line_fuel A (x :: r)) (mk L1 [x] x r [])) as [s'|ps2 m2|] eqn:E; try discriminate.
+    intros H; inversion H; subst.
+    apply (run_out (line_fuel A (x :: r)) (mk L1 [x] x r []) ps m2); [|constructor|exact E].
+    inversion HF; subst. unfold good; cbn; auto.
+Qed.
+
 Lemma run_map fuel s : good s -> run B ltB fuel (map_state s) = map_outcome (run A ltA fuel s).
 Proof.
   revert s. induction fuel as [|n IH]; intros s Hg; cbn [run]; [reflexivity|].
@@ -182,6 +267,68 @@ Proof.
   rewrite run_map.
   - destruct (run A ltA _ _); reflexivity.
   - inversion HF; subst. unfold good; cbn; auto.
+Qed.
+Definition map_res (r : option (list (A * A) * list A)) : option (list (B * B) * list B) :=
+  match r with
+  | None => None
+  | Some (ps, e) => Some (map ff ps, map f e)
+  end.
+
+Lemma pair_lt_map p q : PP p -> PP q -> pair_lt B ltB (ff p) (ff q) = pair_lt A ltA p q.
+Proof. intros [H1 H2] [H3 H4]. unfold pair_lt, ff. cbn [fst snd]. rewrite !Hmono by assumption. reflexivity. Qed.
+
+Theorem line_canon_map l : Forall P l -> line_canon ltB (map f l) = map_res (line_canon ltA l).
+Proof.
+  intros HF. unfold line_canon. rewrite line_map by assumption.
+  destruct (line A ltA l) as [[ps m]|] eqn:E; cbn [map_result map_res]; [|reflexivity].
+  destruct (line_out l ps m HF E) as [Hps _].
+  rewrite (isort_map _ _ ff (pair_lt A ltA) (pair_lt B ltB) PP pair_lt_map) by assumption.
+  destruct m; reflexivity.
+Qed.
+
+Lemma barcode_ext (o1 o2 : nat -> nat -> bool) cells : (forall i j, o1 i j = o2 i j) -> barcode o1 cells = barcode o2 cells.
+Proof.
+  intros H. unfold barcode, filtration_order.
+  rewrite (isort_ext (cell_lt o1 cells) (cell_lt o2 cells)); [reflexivity|].
+  intros a b. unfold cell_lt. rewrite !H. reflexivity.
+Qed.
+
+Theorem line_oracle_map l : Forall P l -> line_oracle B ltB (map f l) = map_res (line_oracle A ltA l).
+Proof.
+  intros HF. destruct l as [|x r]; [reflexivity|]. cbn [map line_oracle].
+  change (f x :: map f r) with (map f (x :: r)). set (l := x :: r) in *.
+  assert (Hx : P x) by (inversion HF; assumption).
+  assert (Hval : forall i, P (val A l x i)).
+  { intros i. unfold val. destruct (nth_in_or_default i l x) as [Hin| ->]; [|exact Hx].
+    rewrite Forall_forall in HF. auto. }
+  assert (Hvm : forall i, val B (map f l) (f x) i = f (val A l x i)) by (intros i; unfold val; apply map_nth).
+  assert (Hpos : forall i j, pos_lt B ltB (map f l) (f x) i j = pos_lt A ltA l x i j).
+  { intros i j. unfold pos_lt. rewrite !Hvm, !Hmono by apply Hval. reflexivity. }
+  unfold line_oracle_from.
+  assert (Hcells : path_cells B ltB (map f l) (f x) = path_cells A ltA l x).
+  { unfold path_cells. rewrite map_length. f_equal. apply map_ext. intros i. rewrite Hpos. reflexivity. }
+  rewrite Hcells. rewrite (barcode_ext _ _ _ Hpos).
+  destruct (barcode (pos_lt A ltA l x) (path_cells A ltA l x)) as [prs|]; cbn [map_res]; [|reflexivity].
+  assert (Hfin : let F := (fun t : nat * nat * option nat => match t with
+                     | (_, b, Some d) => if ltA (val A l x b) (val A l x d) then [(val A l x b, val A l x d)] else []
+                     | _ => [] end) in
+                 let F' := (fun t : nat * nat * option nat => match t with
+                     | (_, b, Some d) => if ltB (val B (map f l) (f x) b) (val B (map f l) (f x) d)
+                                         then [(val B (map f l) (f x) b, val B (map f l) (f x) d)] else []
+                     | _ => [] end) in
+                 concat (map F' prs) = map ff (concat (map F prs)) /\ Forall PP (concat (map F prs))).
+  { cbv zeta. induction prs as [|[[k b] [d|]] t IH]; cbn [map concat]; [split; [reflexivity|apply Forall_nil]| |exact IH].
+    destruct IH as [IH1 IH2]. rewrite !Hvm, Hmono by apply Hval.
+    destruct (ltA (val A l x b) (val A l x d)); cbn [app map]; [|split; assumption].
+    split; [rewrite IH1; reflexivity|constructor; [split; apply Hval|assumption]]. }
+  cbv zeta in Hfin. destruct Hfin as [Hf1 Hf2].
+  assert (Hess : concat (map (fun t : nat * nat * option nat => match t with (_, b, None) => [val B (map f l) (f x) b] | _ => [] end) prs)
+                 = map f (concat (map (fun t : nat * nat * option nat => match t with (_, b, None) => [val A l x b] | _ => [] end) prs))).
+  { clear Hf1 Hf2. induction prs as [|[[k b] [d|]] t IH]; cbn [map concat app]; [reflexivity|exact IH|].
+    rewrite Hvm, IH. reflexivity. }
+  rewrite Hf1.
+  rewrite (isort_map _ _ ff (pair_lt A ltA) (pair_lt B ltB) PP pair_lt_map) by assumption.
+  rewrite Hess. reflexivity.
 Qed.
 End Invariance.
 
